@@ -2,6 +2,7 @@ package props
 
 import (
 	"fmt"
+	"runtime"
 	"reflect"
 
 	"github.com/elastic/go-structform/gotype"
@@ -52,9 +53,19 @@ func (l *lru) touch(k string) {
 	}
 }
 
-func c20One(c *run.C) {
+// c20BigCaps: capacities far above any number of keys a document has.  The
+// capacity is a bound, not a size: enabling the cache must not cost memory in
+// proportion to it.  (Capacities between 2^21 and 2^30 are left out on
+// purpose: an implementation that allocates by capacity would take gigabytes
+// per worker there instead of failing at once.)
+var c20BigCaps = []int{100, 1000, 4096, 1 << 16, 1 << 20, 1<<31 - 1, 1 << 31, 1<<32 - 1, 1 << 32, 1 << 40, 1<<62 + 1, 1<<63 - 1}
+
+func c20One(c *run.C) { c20Run(c, c20Caps[c.Idx%len(c20Caps)]) }
+
+func c20Big(c *run.C) { c20Run(c, c20BigCaps[c.Idx%len(c20BigCaps)]) }
+
+func c20Run(c *run.C, capacity int) {
 	r := c.R
-	capacity := c20Caps[c.Idx%len(c20Caps)]
 	e := c20Elems[(c.Idx/len(c20Caps))%len(c20Elems)]
 	var t reflect.Type
 	switch (c.Idx / (len(c20Caps) * len(c20Elems))) % 4 {
@@ -149,8 +160,16 @@ func c20One(c *run.C) {
 		ref := &lru{cap: capacity}
 		ok := true
 		if withCache {
+			var before, after runtime.MemStats
+			runtime.ReadMemStats(&before)
 			ok = c.Guard("EnableKeyCache", func() { u.EnableKeyCache(capacity) })
 			if !ok {
+				return nil, nil, nil, false
+			}
+			runtime.ReadMemStats(&after)
+			c.ObserveMax("max_alloc_bytes_by_EnableKeyCache", int(after.TotalAlloc-before.TotalAlloc))
+			if a := after.TotalAlloc - before.TotalAlloc; a > 1<<20 {
+				c.Violationf("alloc", "cache:alloc-by-capacity", "EnableKeyCache(%d) allocated %d bytes before any key was seen: the capacity is a bound, not a size", capacity, a)
 				return nil, nil, nil, false
 			}
 		}
@@ -333,6 +352,7 @@ func init() {
 			"object keys drawn from an alphabet of 2..12 keys (empty, one letter, shared long prefixes, non-ASCII, arbitrary bytes) so that capacities {0,1,2,3,5,8,64} see hits, misses, evictions and re-insertions after eviction; " +
 			"every key is delivered by reference from a buffer that is overwritten as soon as the callback returns (directly, or through the ubjson/cborl parser fed with scribbled chunks). " +
 			"Oracle: each document's target with EnableKeyCache(n) == the target of an identical run without cache == the document's value (all earlier targets are re-read at the end, so a cached key whose bytes were overwritten would show). " +
+			"Suite capacities: the same with capacities {100, 1000, 4096, 2^16, 2^20, 2^31-1, 2^31, 2^32-1, 2^32, 2^40, 2^62+1, 2^63-1} and TotalAlloc measured around EnableKeyCache itself (<= 1 MiB: the capacity bounds the cache, it must not size an allocation; a worker killed by the allocation is a violation with the journaled case as witness). " +
 			"A reference LRU only counts hits/misses/evictions for this evidence. distinct_nontrivial = distinct (capacity, type, document sequence).",
 		Assumptions: []string{
 			"the eviction order is not an oracle: the property promises unchanged results, not a policy",
@@ -340,6 +360,7 @@ func init() {
 		},
 		Suites: []*run.Suite{
 			{Name: "sequences", N: tierN(7*21*4*200, 7*21*4*4000), Case: c20One, Require: req},
+			{Name: "capacities", N: tierN(12*21*4*8, 12*21*4*200), Case: c20Big, Batch: 252, Require: []string{"sequences_capacity_4096", "sequences_capacity_1048576", "sequences_capacity_2147483647", "sequences_capacity_9223372036854775807", "cache_hits"}},
 		},
 	})
 }
